@@ -192,6 +192,9 @@ def block_jobs(F, acc, first=None, last=None):
         a = isa.ACCEL[acc]
         if F.ifm.bits == 16:
             ibd = shram.rup(min(F.ifm.depth, 16), 4)
+        elif F.ifm.bits == 32:
+            # an IFM block holds 256 bits per position: 8 channels of 32 bits (REDUCE_SUM of the softmax lowering)
+            ibd = 8
         else:
             ibd = shram.rup(min(F.ifm.depth, 16 if F.part_kernel else 32), a["ifm_ublock"][2])
         ndep = -(-F.ifm.depth // ibd)
